@@ -479,11 +479,16 @@ def r12_9(ctx: Ctx, rule: str = "R12.9") -> None:
     for c in opens:
         cn = q.node_for(es, c)
         here = {(norm(cd), pol) for cd, pol in q.facts_at(es, c)}
+        if any(pol and "platform" in cd_ and "win32" in cd_ for cd_, pol in here):
+            continue  # the junction arm of Windows: outside the property's platforms
+        heads = [ecfg.by_ast[lp_] for lp_ in q.enclosing_loops(es, c) if lp_ in ecfg.by_ast]
         ok = False
         for t in idt:
-            if not ecfg.reaches(t, cn):
+            if not ecfg.reaches(t, cn, avoid=heads):  # in the same iteration: the test is about THIS member's path
                 continue
-            extra = [(cd, pol) for cd, pol in q.facts_at(es, t.ast) if (norm(cd), pol) not in here]
+            # (a condition that was given a name is judged by its definition, which facts_at adds: the name itself says nothing)
+            extra = [(cd, pol) for cd, pol in q.facts_at(es, t.ast) if (norm(cd), pol) not in here
+                     and not (isinstance(cd, ast.Name) and q._named_condition(es, cd.id, q.node_for(es, t.ast)) is not None)]
             if all(any(w in norm(cd) for w in ("MemIO", "own_stats", "exists")) for cd, pol in extra):
                 ok = True
         ctx.check(ok, rule, es, c, "an output is compared with the open archive where it is opened for writing",
